@@ -212,6 +212,9 @@ def step (u : Unit) (op impl : String) : Unit × DrvOut :=
   | ["durx", t, h] => (u, stepDur true t h impl)
   | ["muxx", e, d, h] => (u, stepMux true e d h impl)
   | "e2e" :: "list" :: _ :: rest => (u, stepE2EList rest impl)
+  | "e2e" :: "lists" :: _ :: rest => (u, stepE2EList rest impl)
+  | "e2e" :: "liste" :: _ :: rest => (u, stepE2EList rest impl)
+  | "e2e" :: "listse" :: _ :: rest => (u, stepE2EList rest impl)
   | ["e2e", "get", i, e, h] => (u, stepE2EGet i e h impl)
   | _ => (u, { model := "bad-op" })
 
